@@ -1,6 +1,8 @@
 package main
 
 import (
+	"go/token"
+	"go/ast"
 	"go/constant"
 	"regexp"
 	"fmt"
@@ -62,6 +64,11 @@ func libEffects(x *ssa.Call) ([]string, bool) {
 			if sl, ok := mi.X.Type().Underlying().(*types.Slice); ok {
 				return []string{elemHeapPrefix(sl.Elem())}, true
 			}
+		}
+		return nil, false
+	case "golang.org/x/exp/maps.Keys", "maps.Keys":
+		if sl, ok := x.Type().Underlying().(*types.Slice); ok {
+			return []string{elemHeapPrefix(sl.Elem())}, true
 		}
 		return nil, false
 	case "encoding/binary.Write":
@@ -175,6 +182,13 @@ func (f *FuncVC) libCall(st *State, x *ssa.Call, args []*Val) (*Val, bool) {
 				// ... and every element before is one of the elements afterwards
 				inv := f.sc.fresh("perminv")
 				f.sc.declareFun(inv, []string{"Int"}, "Int")
+				{
+					// perm and perminv are inverse bijections of the index range
+					q := f.sc.fresh("k")
+					lo, hi := sv.Fs[1].T, arith("+", sv.Fs[1].T, sv.Fs[2].T)
+					f.fact(st, fmt.Sprintf("(forall ((%s Int)) (! (=> (and (<= %s %s) (< %s %s)) (= (%s (%s %s)) %s)) :pattern ((%s %s))))", q, lo, q, q, hi, inv, perm, q, q, perm, q))
+					f.fact(st, fmt.Sprintf("(forall ((%s Int)) (! (=> (and (<= %s %s) (< %s %s)) (= (%s (%s %s)) %s)) :pattern ((%s %s))))", q, lo, q, q, hi, perm, inv, q, q, inv, q))
+				}
 				for i, hn := range names {
 					after := sel(f.heap(st, hn, arraySort(2, sorts[i])), sv.Fs[0].T)
 					after = f.sc.nameConst("sorted", arraySort(1, sorts[i]), after)
@@ -186,8 +200,27 @@ func (f *FuncVC) libCall(st *State, x *ssa.Call, args []*Val) (*Val, bool) {
 					f.fact(st, fmt.Sprintf("(forall ((%s Int)) (! (=> (and (<= %s %s) (< %s %s)) (and (<= %s (%s %s)) (< (%s %s) %s) (= (select %s %s) (select %s (%s %s))))) :pattern ((select %s %s))))",
 						q, lo, q, q, hi, lo, inv, q, inv, q, hi, bef, q, after, inv, q, bef, q))
 				}
+				// sortedness for the plain comparators s[i] < s[j] / s[i] > s[j]
+				// over the sorted slice itself (integer elements)
+				if dir := simpleComparator(x, mi); dir != "" && len(names) == 1 && sorts[0] == "Int" {
+					f.usedAssumed[name+": with the comparator s[i] < s[j] (s[i] > s[j]) the slice ends up in non-decreasing (non-increasing) order"] = true
+					after := sel(f.heap(st, names[0], arraySort(2, sorts[0])), sv.Fs[0].T)
+					after = f.sc.nameConst("sortedrow", arraySort(1, sorts[0]), after)
+					a, b := f.sc.fresh("a"), f.sc.fresh("b")
+					lo, hi := sv.Fs[1].T, arith("+", sv.Fs[1].T, sv.Fs[2].T)
+					op := "<="
+					if dir == ">" {
+						op = ">="
+					}
+					f.fact(st, fmt.Sprintf("(forall ((%s Int) (%s Int)) (! (=> (and (<= %s %s) (< %s %s) (< %s %s)) (%s (select %s %s) (select %s %s))) :pattern ((select %s %s) (select %s %s))))",
+						a, b, lo, a, a, b, b, hi, op, after, a, after, b, after, a, after, b))
+				}
 				return &Val{K: KTuple, Ty: resTy}, true
 			}
+		}
+	case "golang.org/x/exp/maps.Keys", "maps.Keys":
+		if r, ok := f.mapsKeys(st, x, args); ok {
+			return r, true
 		}
 	case "sort.Search":
 		f.usedAssumed[name+": returns an index in [0,n]; the predicate closure is assumed free of side effects"] = true
@@ -416,6 +449,117 @@ func (f *FuncVC) binaryWriteContent(st *State, x *ssa.Call, bv *Val, len0 string
 		}
 		off += n
 	}
+}
+
+// simpleComparator recognises sort.Slice(s, func(i, j int) bool { return s[i] < s[j] })
+// (or >) where s is the very slice being sorted; it returns "<", ">" or "".
+func simpleComparator(x *ssa.Call, mi *ssa.MakeInterface) string {
+	if len(x.Call.Args) < 2 {
+		return ""
+	}
+	mc, ok := x.Call.Args[1].(*ssa.MakeClosure)
+	if !ok {
+		return ""
+	}
+	fn, ok := mc.Fn.(*ssa.Function)
+	if !ok {
+		return ""
+	}
+	fl, ok := fn.Syntax().(*ast.FuncLit)
+	if !ok || len(fl.Body.List) != 1 || fl.Type.Params == nil {
+		return ""
+	}
+	var params []string
+	for _, p := range fl.Type.Params.List {
+		for _, n := range p.Names {
+			params = append(params, n.Name)
+		}
+	}
+	ret, ok := fl.Body.List[0].(*ast.ReturnStmt)
+	if !ok || len(ret.Results) != 1 || len(params) != 2 {
+		return ""
+	}
+	be, ok := ret.Results[0].(*ast.BinaryExpr)
+	if !ok || (be.Op != token.LSS && be.Op != token.GTR) {
+		return ""
+	}
+	side := func(e ast.Expr, idx string) string {
+		ie, ok := e.(*ast.IndexExpr)
+		if !ok {
+			return ""
+		}
+		base, ok1 := ie.X.(*ast.Ident)
+		ix, ok2 := ie.Index.(*ast.Ident)
+		if !ok1 || !ok2 || ix.Name != idx {
+			return ""
+		}
+		return base.Name
+	}
+	sa, sb := side(be.X, params[0]), side(be.Y, params[1])
+	if sa == "" || sa != sb {
+		return ""
+	}
+	// the compared slice must be the sorted one: the closure captures the
+	// variable whose current value is passed as the first argument
+	ld, ok := mi.X.(*ssa.UnOp)
+	if !ok || ld.Op != token.MUL {
+		return ""
+	}
+	for i, fv := range fn.FreeVars {
+		if fv.Name() == sa && i < len(mc.Bindings) && mc.Bindings[i] == ld.X {
+			if be.Op == token.LSS {
+				return "<"
+			}
+			return ">"
+		}
+	}
+	return ""
+}
+
+// mapsKeys models maps.Keys(m) (golang.org/x/exp/maps): a fresh slice that
+// holds every key of m exactly once, in unspecified order.
+func (f *FuncVC) mapsKeys(st *State, x *ssa.Call, args []*Val) (*Val, bool) {
+	if len(args) != 1 || args[0].K != KMap {
+		return nil, false
+	}
+	mt, ok := x.Call.Args[0].Type().Underlying().(*types.Map)
+	if !ok {
+		return nil, false
+	}
+	sl, ok := x.Type().Underlying().(*types.Slice)
+	if !ok || kindOf(sl.Elem()) != KInt {
+		return nil, false
+	}
+	dom, ln, ksort, ok := f.mapHeaps(st, args[0], mt)
+	if !ok || ksort != "Int" {
+		return nil, false
+	}
+	f.usedAssumed["maps.Keys: returns a fresh slice holding every key of the map exactly once (order unspecified)"] = true
+	m := args[0].T
+	n := f.sc.define("nkeys", "Int", ite(eq(m, "0"), "0", sel(ln, m)))
+	p := f.allocObject(st, types.NewArray(sl.Elem(), 0), types.NewPointer(types.NewArray(sl.Elem(), 0)))
+	ref := p.Fs[0].T
+	hn := elemHeapPrefix(sl.Elem())
+	hs := arraySort(2, "Int")
+	row := f.sc.fresh("keys")
+	f.sc.declare(row, "(Array Int Int)")
+	f.setHeap(st, hn, hs, store(f.heap(st, hn, hs), ref, row))
+	has := func(k string) string { return and(not(eq(m, "0")), sel(sel(dom, m), k)) }
+	i, j, k := f.sc.fresh("i"), f.sc.fresh("j"), f.sc.fresh("k")
+	// every element is a key
+	f.fact(st, fmt.Sprintf("(forall ((%s Int)) (! (=> (and (<= 0 %s) (< %s %s)) %s) :pattern ((select %s %s))))", i, i, i, n, has(sel(row, i)), row, i))
+	// no key twice
+	f.fact(st, fmt.Sprintf("(forall ((%s Int) (%s Int)) (! (=> (and (<= 0 %s) (< %s %s) (< %s %s)) (not (= (select %s %s) (select %s %s)))) :pattern ((select %s %s) (select %s %s))))", i, j, i, i, j, j, n, row, i, row, j, row, i, row, j))
+	// every key is an element: named witness function
+	idx := f.sc.fresh("keyidx")
+	f.sc.declareFun(idx, []string{"Int"}, "Int")
+	f.fact(st, fmt.Sprintf("(forall ((%s Int)) (! (=> %s (and (<= 0 (%s %s)) (< (%s %s) %s) (= (select %s (%s %s)) %s))) :pattern ((select (select %s %s) %s))))", k, has(k), idx, k, idx, k, n, row, idx, k, k, dom, m, k))
+	if lo, hi, ok := intRangeOf(sl.Elem()); ok {
+		f.fact(st, fmt.Sprintf("(forall ((%s Int)) (! (and (<= %s (select %s %s)) (<= (select %s %s) %s)) :pattern ((select %s %s))))", i, numBig(lo), row, i, row, i, numBig(hi), row, i))
+	}
+	r := &Val{K: KSlice, Ty: x.Type(), Fs: []*Val{vInt(ref, nil), vInt("0", nil), vInt(n, nil), vInt(n, nil)}}
+	r.Fs[2].Lo = big.NewInt(0)
+	return r, true
 }
 
 func isByteType(t types.Type) bool {
